@@ -7,8 +7,8 @@
    checks of nodeSelector and of the handlers), and the exact order of the state mutations before
    each error return.  What is an oracle (a request argument): freshly generated UUIDs
    (dvid.NewUUID), which parents of a resolve request had conflicting keys (key-value store
-   content), whether a data type name is known, and Go's map iteration order where the code
-   depends on it ([ur_pick]).
+   content), whether a data type name is known.  (Since the branch heads became a function of the DAG
+   -- the newest node of a branch -- nothing the model covers depends on Go's map iteration order.)
 
    [fixes] selects, per repaired defect, the code as it was found (false) or after its fix: commit
    (true); [repaired] is the code the theorems of Props/C07.v are about. *)
@@ -162,10 +162,6 @@ Definition upd_repo (s : state) (i : rid) (f : repo -> repo) : state :=
 Definition set_repo_of (s : state) (u : uuid) (i : rid) : state :=
   mkState (st_repos s) (<[u := i]> (st_repo_of s)) (st_roots s) (st_u2v s) (st_v2u s) (st_heads s)
           (st_next_v s) (st_next_r s) (st_next_i s).
-Definition set_head (s : state) (k : string) (u : uuid) : state :=
-  mkState (st_repos s) (st_repo_of s) (st_roots s) (st_u2v s) (st_v2u s) (<[k := u]> (st_heads s))
-          (st_next_v s) (st_next_r s) (st_next_i s).
-
 Definition add_child (c : vid) (n : node) : node :=
   mkNode (n_uuid n) (n_parents n) (n_children n ++ [c])%list (n_branch n) (n_locked n).
 Definition add_parent (p : vid) (n : node) : node :=
@@ -176,23 +172,6 @@ Definition lock_node (n : node) : node :=
 (* ---- dagT.getAncestryByBranch ---- *)
 Definition branch_matches (name b : string) : bool :=
   String.eqb b name || (String.eqb name "master" && String.eqb b "").
-
-(* walk down: the child carrying the branch; two such children, or a child that is not in the
-   map, is an error *)
-Fixpoint descend (fuel : nat) (nodes : gmap vid node) (bname : string) (n : node) : outcome node :=
-  match fuel with
-  | O => Hang
-  | S f =>
-    match lookup_all nodes (n_children n) with
-    | None => Fail
-    | Some cs =>
-      match List.filter (fun c => String.eqb (n_branch c) bname) cs with
-      | [] => Done n
-      | [c] => descend f nodes bname c
-      | _ => Fail
-      end
-    end
-  end.
 
 (* walk up from the leaf: every parent but the last is listed, the last one is ascended *)
 Fixpoint ascend (fuel : nat) (nodes : gmap vid node) (cur : node) : outcome (list uuid) :=
@@ -211,21 +190,42 @@ Fixpoint ascend (fuel : nat) (nodes : gmap vid node) (cur : node) : outcome (lis
     end
   end.
 
-(* The Go loop over d.nodes keeps the last node whose branch matches; which one is last depends
-   on map iteration order: [pick] selects among the matching nodes. *)
-Definition ancestry_starts (r : repo) (name : string) : list node :=
-  List.map snd (List.filter (fun x => branch_matches name (n_branch (snd x))) (nodes_list r)).
+(* the newest node (largest version id) among those satisfying f: repoT.branchHeads and the start of
+   dagT.getAncestryByBranch *)
+Definition newest (f : node -> bool) (r : repo) : option (vid * node) :=
+  fold_left (fun acc x =>
+    if f (snd x) then
+      match acc with
+      | Some y => if (fst y <? fst x)%N then Some x else acc
+      | None => Some x
+      end
+    else acc) (nodes_list r) None.
 
-Definition ancestry_from (r : repo) (n0 : node) : outcome (list uuid) :=
-  let fuel := S (size (r_nodes r)) in
-  obind (descend fuel (r_nodes r) (n_branch n0) n0) (fun leaf => ascend fuel (r_nodes r) leaf).
-
-Definition ancestry (pick : nat) (r : repo) (name : string) : outcome (list uuid) :=
-  let cands := ancestry_starts r name in
-  match nth_error cands (pick mod length cands) with
+(* start at the head of the branch ("master" also names the empty branch), walk up *)
+Definition ancestry (r : repo) (name : string) : outcome (list uuid) :=
+  match newest (fun n => branch_matches name (n_branch n)) r with
   | None => Done []
-  | Some n0 => ancestry_from r n0
+  | Some (_, n0) => ascend (S (size (r_nodes r))) (r_nodes r) n0
   end.
+
+(* ---- repoT.branchHeads / repoManager.cacheBranchHeads ---- *)
+(* every branch name of the repo with the UUID of its newest node, keyed as in branchToUUID *)
+Definition repo_heads (r : repo) : list (string * uuid) :=
+  flat_map (fun x =>
+    match newest (fun m => String.eqb (n_branch m) (n_branch (snd x))) r with
+    | Some (_, h) => [(head_key (r_root r) (n_branch (snd x)), n_uuid h)]
+    | None => []
+    end) (nodes_list r).
+
+(* the cached heads of repo r are dropped (every key that starts with its root UUID) and replaced
+   by what its DAG gives *)
+Definition cache_heads (s : state) (r : repo) : state :=
+  mkState (st_repos s) (st_repo_of s) (st_roots s) (st_u2v s) (st_v2u s)
+          (list_to_map (repo_heads r) ∪
+           filter (fun kv => String.prefix (r_root r) (fst kv) = false) (st_heads s))
+          (st_next_v s) (st_next_r s) (st_next_i s).
+Definition recache (s : state) (i : rid) : state :=
+  match st_repos s !! i with Some r => cache_heads s r | None => s end.
 
 (* ---- repoManager.getBranchVersion / matchingUUID ---- *)
 (* uuid == NilUUID: "for _, r = range m.repos { break }" after the more-than-one-repo check;
@@ -237,12 +237,12 @@ Definition the_only_repo (s : state) : outcome repo :=
   | _ => Fail
   end.
 
-Definition get_branch_version (pick : nat) (s : state) (u : uuid) (name : string) : outcome uuid :=
+Definition get_branch_version (s : state) (u : uuid) (name : string) : outcome uuid :=
   obind (if String.eqb u "" then the_only_repo s else of_opt (repo_by_uuid s u)) (fun r =>
   obind
     match split_on "~" name with
     | [nm; k] =>
-      obind (ancestry pick r nm) (fun anc =>
+      obind (ancestry r nm) (fun anc =>
         match atoi k with
         | None => Fail
         | Some z =>
@@ -253,8 +253,8 @@ Definition get_branch_version (pick : nat) (s : state) (u : uuid) (name : string
     end (fun bu =>
   match st_u2v s !! bu with Some _ => Done bu | None => Fail end)).
 
-(* a UUID string as it arrives in a URL or a JSON body, with the iteration-order oracle *)
-Record uref := mkUref { ur_str : string; ur_pick : nat }.
+(* a UUID string as it arrives in a URL or a JSON body *)
+Notation uref := string (only parsing).
 
 Definition prefix_matches (s : state) (p : string) : list (uuid * vid) :=
   List.filter (fun x => String.prefix p (fst x)) (map_to_list (st_u2v s)).
@@ -262,12 +262,12 @@ Definition prefix_matches (s : state) (p : string) : list (uuid * vid) :=
 Definition matching (s : state) (x : uref) : outcome uuid :=
   let by_prefix (p branch : string) :=
     match prefix_matches s p with
-    | [(u, _)] => if String.eqb branch "" then Done u else get_branch_version (ur_pick x) s u branch
+    | [(u, _)] => if String.eqb branch "" then Done u else get_branch_version s u branch
     | _ => Fail
     end in
-  match split_on ":" (ur_str x) with
+  match split_on ":" x with
   | [a] => by_prefix a ""
-  | [a; b] => if String.eqb a "" then get_branch_version (ur_pick x) s "" b else by_prefix a b
+  | [a; b] => if String.eqb a "" then get_branch_version s "" b else by_prefix a b
   | _ => Fail
   end.
 
@@ -330,9 +330,9 @@ Definition do_new_version (fx : fixes) (s : state) (parent : uuid) (bname : stri
       if fx_assign_check fx && assign_refused s assign then (s, Fail) else
       let cu := match assign with Some a => a | None => fresh end in
       let (s1, cv) := new_uuid s cu in
-      let s2 := set_repo_of (set_head s1 (head_key (r_root r) b) cu) cu i in
+      let s2 := set_repo_of s1 cu i in
       let child := mkNode cu [v] [] b false in
-      (upd_repo s2 i (upd_nodes (fun m => <[cv := child]> (alter (add_child cv) v m))), Done cu)
+      (recache (upd_repo s2 i (upd_nodes (fun m => <[cv := child]> (alter (add_child cv) v m)))) i, Done cu)
     end
   end.
 
@@ -390,7 +390,7 @@ Definition do_merge (fx : fixes) (s : state) (parents : list uuid) (fresh : uuid
             if fx_merge_distinct fx && negb (bool_decide (NoDup vs)) then (s, Fail) else
             let (s1, cv) := new_uuid s fresh in
             let s2 := set_repo_of s1 fresh i in
-            (upd_repo s2 i (upd_nodes (fun m => link_children cv vs (<[cv := mkNode fresh vs [] "" false]> m))),
+            (recache (upd_repo s2 i (upd_nodes (fun m => link_children cv vs (<[cv := mkNode fresh vs [] "" false]> m)))) i,
              Done fresh)
           end
         end
@@ -399,7 +399,7 @@ Definition do_merge (fx : fixes) (s : state) (parents : list uuid) (fresh : uuid
         let s2 := set_repo_of s1 fresh i in
         let s3 := upd_repo s2 i (upd_nodes (fun m => <[cv := mkNode fresh [] [] "" false]> m)) in
         let (s4, ok) := merge_link s3 i cv parents in
-        (s4, if ok then Done fresh else Fail)
+        if ok then (recache s4 i, Done fresh) else (s4, Fail)
     end
   | _ => (s, Fail)
   end.
@@ -417,9 +417,9 @@ Definition do_new_repo (fx : fixes) (s : state) (assign : option uuid) (pass : s
   let (s1, v) := new_uuid s u in
   let id := st_next_r s1 in
   let r := mkRepo u v {[ v := mkNode u [] [] "" false ]} [] pass in
-  (mkState (<[id := r]> (st_repos s1)) (<[u := id]> (st_repo_of s1)) (<[id := u]> (st_roots s1))
-           (st_u2v s1) (st_v2u s1) (<[head_key u "" := u]> (st_heads s1))
-           (st_next_v s1) (id + 1)%N (st_next_i s1), Done u).
+  (cache_heads (mkState (<[id := r]> (st_repos s1)) (<[u := id]> (st_repo_of s1)) (<[id := u]> (st_roots s1))
+                        (st_u2v s1) (st_v2u s1) (st_heads s1) (st_next_v s1) (id + 1)%N (st_next_i s1)) r,
+   Done u).
 
 (* ---- repoManager.deleteRepo ---- *)
 Definition drop_versions (s : state) (vs : list vid) : option state :=
